@@ -952,6 +952,26 @@ func checkConfigDefaults(c *Check, p *Program, rule string, a *tunnelAnchors, t 
 		return
 	}
 	call, _ := cfgStore.Val.(*ssa.Call)
+	if call == nil {
+		// normalised into a local first (config = checkTunnelConfig(config)): every value the local holds at
+		// the store is the result of one and the same call
+		if u, ok := cfgStore.Val.(*ssa.UnOp); ok && u.Op == token.MUL {
+			if cell, ok := u.X.(*ssa.Alloc); ok {
+				var last *ssa.Store
+				nCall := 0
+				for _, st := range cellStores(cell) {
+					if _, isP := st.Val.(*ssa.Parameter); isP {
+						continue
+					}
+					nCall++
+					last = st
+				}
+				if nCall == 1 && last != nil && instrDominates(last, u) {
+					call, _ = last.Val.(*ssa.Call)
+				}
+			}
+		}
+	}
 	var norm *ssa.Function
 	if call != nil {
 		norm = call.Common().StaticCallee()
